@@ -1,6 +1,7 @@
 """C09 — JitAllocator never hands out overlapping, misaligned or corrupted memory (DESIGN.md section 6, C09)."""
 import itertools
 import os
+import time
 from concurrent.futures import ThreadPoolExecutor
 
 import vlib
@@ -34,6 +35,7 @@ MANIFEST = {
             "the final summation of statistics() over the pools.",
 }
 MODS = ["AsmjitVerif.Props.C09"]
+SHRINK_DEADLINE = [float("inf")]   # wall-clock limit for shrinking (set per run: the quick tier stays under ~3 min on failure paths too)
 
 OPT_DUAL, OPT_MULTI, OPT_FILL, OPT_IMM, OPT_NOPAD, OPT_LARGE, OPT_CUSTOM = 1, 2, 4, 8, 16, 32, 0x10000000
 # the 8 most different option sets (quick); thorough uses all 2^6 x custom pattern
@@ -255,9 +257,9 @@ def shrink_history(runner, hist, kind, key):
                 return True
         return False
 
-    if len(body) <= 12:          # already a minimal witness (corpus entries, bounded-exhaustive histories)
+    if len(body) <= 12 or time.time() > SHRINK_DEADLINE[0]:   # minimal already (corpus, bounded-exhaustive) / out of time budget
         return hist
-    small = vlib.ddmin(body, fails, max_tests=100)
+    small = vlib.ddmin(body, lambda c: time.time() < SHRINK_DEADLINE[0] and fails(c), max_tests=60)
     return [cfg] + small
 
 
@@ -268,7 +270,7 @@ def run_batch(runner, hists):
     pending = list(hists)
     impl_all, lines_all = [], []
     guard = 0
-    while pending and guard < 4:
+    while pending and guard < 3 and time.time() < SHRINK_DEADLINE[0]:
         guard += 1
         flat, owner = [], []
         for k, hst in enumerate(pending):
@@ -369,6 +371,7 @@ def build_histories(res, rng):
 
 def run(res):
     rng = vlib.rng_for(res.seed, PID)
+    SHRINK_DEADLINE[0] = res.t0 + (130 if res.tier == "quick" else 1200)
     res.assumptions += [
         "mmap / dual mapping return fresh, page-aligned, pairwise disjoint ranges and the rw view aliases the rx view (tested by the harness on every block, not proved)",
         "large pages are never granted (sandbox): JitAllocator_new_block falls back to regular pages",
